@@ -45,6 +45,8 @@ var zzTables = [][]zzOp{
 	// 10, 11: the tail of a split node equals the text of an existing sibling (literal / below a parameter)
 	{zzH("/a/u", "GET"), zzH("/a/su", "POST"), zzH("/a/sv", "GET")},
 	{zzH("/p/d", "GET"), zzH("/p/{id}/d", "GET"), zzH("/p/{id}/c", "POST"), zzH("/p/{id}", "DELETE")},
+	// 12: an arbitrary (uninterpreted) user-defined interceptor "u" next to regexp and named parameters
+	{zzH("/i/{n:u}", "GET"), zzH("/i/{r:[a-c]+}", "GET"), zzH("/i/{s}", "GET"), zzH("/i/{n:u}/x", "POST"), zzH("/w/{m:u}.t", "GET"), zzH("/v/{-k:u}/e", "GET")},
 }
 
 var zzMethods = []string{"GET", "HEAD", "POST", "OPTIONS", "DELETE", "PUT", "TRACE", "", "BOGUS"}
